@@ -265,7 +265,7 @@ func (d *drv) consOne(t *merkle.CompactMerkleTree, N, m, n int, emit, all bool) 
 // appends).
 func (d *drv) proofsCheck(N int, store string) {
 	c := d.c
-	nv := c.N(10, 16) // all verifier cases up to this size go to Coq; above: a sample
+	nv := c.N(8, 16) // all verifier cases up to this size go to Coq; above: a sample
 	var st merkle.HashStore
 	if store == "file" {
 		var err error
